@@ -513,7 +513,7 @@ void h_GF_isVanishing(void)
  *   list (monitor), ghost position of the source list copied exactly once; sizes equal; source list not modified.
  *   TRUSTED: implicit ComputableObject copy constructor copies Status; the copy of ONE part (GreensFunctionPart's implicit copy) is opaque.
  * h_GF_isVanishing: the accessor returns the Vanishing flag, writes nothing.
- * NOT covered: destructor, getIndex; the value of one part is opaque here (gfterm.c / gfpart.c).
+ * getIndex: specs/tpgfmisc.c (h_GF_getIndex).  NOT covered: destructor; the value of one part is opaque here (gfterm.c / gfpart.c).
  *
  * ASSUMPTIONS introduced here: std::list model (push_back appends, size counts, iteration in order; handles canonical); callee stubs
  *   DensityMatrix::isRetained/getPart, Hamiltonian::getPart, FieldOperator::getPartFromLeft/RightIndex (their pre-conditions are asserted);
